@@ -139,9 +139,16 @@ theorem supplierStep_tagLine (st : PState) (hs : st.started = false) (n : Nat) (
   simp [supplierStep, tagLine_ne_trigger n v, hs]
 
 theorem step_tag2 (st : PState) (hs : st.started = false) {v : Str} (h : dispatches 2 v = true) :
-    step st (tag 2 ++ v) = .ok { st with enzyme := { st.enzyme with isoschizomers := split ',' v } } := by
+    step st (tag 2 ++ v) =
+      .ok { st with enzyme := { st.enzyme with isoschizomers := if v = [] then st.enzyme.isoschizomers else split ',' v } } := by
   have d := dispatches_spec h
-  simp [step, supplierStep_tagLine st hs, recordStep, d 1, hasSub_prefix, from3_tag]
+  have e1 : supplierStep st (tag 2 ++ v) = .ok st := supplierStep_tagLine st hs 2 v
+  have e2 : hasSub (tag 1) (tag 2 ++ v) = false := d 1 (by omega) (by omega)
+  have e3 : hasSub (tag 2) (tag 2 ++ v) = true := hasSub_prefix _ _
+  simp only [step, e1, Outcome.bind_ok, recordStep, e2, e3, from3_tag, if_true, Bool.false_eq_true, if_false]
+  by_cases hv : v = []
+  · simp only [hv, if_true]
+  · simp only [hv, if_false]
 
 theorem step_tag3 (st : PState) (hs : st.started = false) {v : Str} (h : dispatches 3 v = true) :
     step st (tag 3 ++ v) = .ok { st with enzyme := { st.enzyme with recognitionSequence := v } } := by
@@ -212,7 +219,8 @@ theorem loop_blanks_idle {blank : Str} (hb : ∀ c ∈ blank, isBlank c = true) 
 
 /-- the entry `Parse` stores for a record, given the supplier map built so far -/
 def enzymeModel (sup : List (Char × Str)) (r : Rec) : Enzyme :=
-  { name := r.name, isoschizomers := split ',' (joinSep ',' r.isos), recognitionSequence := r.recog,
+  { name := r.name, isoschizomers := if joinSep ',' r.isos = [] then [] else split ',' (joinSep ',' r.isos),
+    recognitionSequence := r.recog,
     methylationSite := r.meth, microOrganism := r.org, source := r.src,
     commercialAvailability := r.codes.map (supLookup sup), references := r.refs }
 
@@ -225,7 +233,7 @@ structure RecFacts (sups : List Supplier) (r : Rec) : Prop where
   d7 : dispatches 7 r.codes = true
   d8 : dispatches 8 r.refs = true
   more : ∀ l ∈ r.moreRefs, l ≠ trigger ∧ noTags l = true
-  isos : ∀ i ∈ r.isos, ',' ∉ i
+  isos : ∀ i ∈ r.isos, ',' ∉ i ∧ i ≠ []
   codes : ∀ c ∈ r.codes, c ∈ sups.map (·.code)
   noNl : ∀ l ∈ recLines r, '\n' ∉ l
 
@@ -245,10 +253,16 @@ theorem recFacts {sups : List Supplier} {r : Rec} (h : wfRec sups r = true) : Re
     · exact absurd e (by decide)
     · exact noNl_spec (hisos l hl).1.1 hc
   refine ⟨d2, d3, d4, d5, d6, d7, d8, fun l hl => ⟨(hmore l hl).2, (hmore l hl).1.2⟩, ?_, ?_, ?_⟩
-  · intro i hi hm
-    have := (hisos i hi).1.2
-    rw [List.contains_iff_mem.2 hm] at this
-    exact Bool.noConfusion this
+  · intro i hi
+    refine ⟨?_, ?_⟩
+    · intro hm
+      have := (hisos i hi).1.2
+      rw [List.contains_iff_mem.2 hm] at this
+      exact Bool.noConfusion this
+    · intro e
+      have := (hisos i hi).2
+      rw [e] at this
+      exact Bool.noConfusion this
   · intro c hc
     exact List.contains_iff_mem.1 (hcodes c hc)
   · intro l hl
@@ -261,7 +275,7 @@ theorem recFacts {sups : List Supplier} {r : Rec} (h : wfRec sups r = true) : Re
          first | exact noNl_spec n1 | exact hisoNl | exact noNl_spec n3 | exact noNl_spec n4 | exact noNl_spec n5
                | exact noNl_spec n6 | exact noNl_spec n7 | exact noNl_spec n8)
 
-theorem loop_record {sups : List Supplier} (st : PState) {r : Rec} (hw : RecFacts sups r) :
+theorem loop_record {sups : List Supplier} (st : PState) (he : st.enzyme.isoschizomers = []) {r : Rec} (hw : RecFacts sups r) :
     loop (recLines r) st =
       .ok { st with started := false, lineNo := if st.started then 1 else st.lineNo, enzyme := {},
                     enzymeMap := mapInsert st.enzymeMap r.name (enzymeModel st.suppliers r) } := by
@@ -276,7 +290,7 @@ theorem loop_record {sups : List Supplier} (st : PState) {r : Rec} (hw : RecFact
   rw [step_tag7 _ rfl hw.d7]; simp only [Outcome.bind_ok]
   rw [step_tag8 _ rfl hw.d8]; simp only [Outcome.bind_ok]
   rw [loop_idle _ _ rfl hw.more]
-  simp [enzymeModel]
+  simp [enzymeModel, he]
 
 theorem step_blank_keeps (st : PState) {blank : Str} (hb : ∀ c ∈ blank, isBlank c = true) :
     ∃ st', step st blank = .ok st' ∧ st'.enzymeMap = st.enzymeMap := by
@@ -287,15 +301,15 @@ theorem step_blank_keeps (st : PState) {blank : Str} (hb : ∀ c ∈ blank, isBl
 /-! ### the blocks -/
 
 theorem loop_recBlock (sups : List Supplier) {blank : Str} (hb : ∀ c ∈ blank, isBlank c = true) :
-    ∀ (recs : List Rec) (gaps : List Nat) (st : PState), (∀ r ∈ recs, RecFacts sups r) →
+    ∀ (recs : List Rec) (gaps : List Nat) (st : PState), st.enzyme.isoschizomers = [] → (∀ r ∈ recs, RecFacts sups r) →
       ∃ st', loop (recBlock blank recs gaps) st = .ok st' ∧ st'.suppliers = st.suppliers ∧
         st'.enzymeMap = recs.foldl (fun m r => mapInsert m r.name (enzymeModel st.suppliers r)) st.enzymeMap
-  | [], _, st, _ => ⟨st, by simp [recBlock, loop], rfl, rfl⟩
-  | r :: rs, [], st, h => by
-    have h1 := loop_record st (h r (by simp))
+  | [], _, st, _, _ => ⟨st, by simp [recBlock, loop], rfl, rfl⟩
+  | r :: rs, [], st, he, h => by
+    have h1 := loop_record st he (h r (by simp))
     obtain ⟨st', hl, e2, e3⟩ := loop_recBlock sups hb rs []
       { st with started := false, lineNo := if st.started then 1 else st.lineNo, enzyme := {},
-                enzymeMap := mapInsert st.enzymeMap r.name (enzymeModel st.suppliers r) }
+                enzymeMap := mapInsert st.enzymeMap r.name (enzymeModel st.suppliers r) } rfl
       (fun x hx => h x (by simp [hx]))
     refine ⟨st', ?_, e2, e3⟩
     simp only [recBlock]
@@ -303,11 +317,11 @@ theorem loop_recBlock (sups : List Supplier) {blank : Str} (hb : ∀ c ∈ blank
     simp only [Outcome.bind_ok, loop]
     rw [step_idle _ rfl (blank_ne_trigger hb) (noTags_of_blank hb)]
     exact hl
-  | r :: rs, g :: gs, st, h => by
-    have h1 := loop_record st (h r (by simp))
+  | r :: rs, g :: gs, st, he, h => by
+    have h1 := loop_record st he (h r (by simp))
     obtain ⟨st', hl, e2, e3⟩ := loop_recBlock sups hb rs gs
       { st with started := false, lineNo := if st.started then 1 else st.lineNo, enzyme := {},
-                enzymeMap := mapInsert st.enzymeMap r.name (enzymeModel st.suppliers r) }
+                enzymeMap := mapInsert st.enzymeMap r.name (enzymeModel st.suppliers r) } rfl
       (fun x hx => h x (by simp [hx]))
     refine ⟨st', ?_, e2, e3⟩
     simp only [recBlock]
@@ -386,10 +400,17 @@ theorem supLookup_table : ∀ (sups : List Supplier) (c : Char),
       simp only [supplierOf] at ih
       simp [supLookup, supplierOf, List.find?, h, hb, ih]
 
-theorem split_joinSep_isos {isos : List Str} (h : ∀ i ∈ isos, ',' ∉ i) :
-    split ',' (joinSep ',' isos) = if isos.isEmpty then [[]] else isos := by
+theorem split_joinSep_isos {isos : List Str} (h : ∀ i ∈ isos, ',' ∉ i ∧ i ≠ []) :
+    (if joinSep ',' isos = [] then [] else split ',' (joinSep ',' isos)) = isos := by
   cases isos with
-  | nil => simp [joinSep, split, splitGo]
-  | cons a r => simpa using split_joinSep (sep := ',') (ls := a :: r) (by simp) h
+  | nil => simp [joinSep]
+  | cons a r =>
+    have hne : joinSep ',' (a :: r) ≠ [] := by
+      have ha := (h a (by simp)).2
+      cases r with
+      | nil => simpa [joinSep] using ha
+      | cons b t => simp [joinSep]
+    rw [if_neg hne]
+    exact split_joinSep (sep := ',') (ls := a :: r) (by simp) (fun i hi => (h i hi).1)
 
 end PolyVerif.Rebase
